@@ -415,6 +415,9 @@ def _cc_lit(cx, l, depth=0):
                         kinds |= set().union(*ks)
                     elif v == ("bool", False) and not ks:
                         pass
+                    elif v[0] == "bin" and v[1] == "Eq" and any(x[0] == "enum" and x[1] == ET and x[2] in CC_KINDS for x in v[2:4]) and any(_is_entry_type(x) for x in v[2:4]) and not ks:
+                        # `.. || e.entry_type == EntryConfChangeV2` as the closure's tail expression
+                        kinds |= {x[2] for x in v[2:4] if x[0] == "enum"}
                     else:
                         return None
                 return frozenset(kinds) or None
@@ -454,7 +457,26 @@ def unapplied_scan(cx):
         cx.check(len(writes) >= 1, name + ":flag-write", "the callback records a hit in a captured flag", sc)
         flags = {w[2] for w in writes}
         cx.check(len(flags) <= 1, name + ":flag-one", "one captured flag")
-        for bi, si, up, rv in writes:
+        # second accepted form: `found = page.iter().any(is_conf_change); !found` -- the flag is recomputed per page,
+        # but the scan stops at the first page where it is true, so a hit is never overwritten
+        form2_kinds = None
+        rets0 = closure_returns(cx.prog, clos[0][1])
+        if len(writes) == 1 and rets0:
+            bi, si, up, rv = writes[0]
+            fv = ca.expr_rvalue(rv, (bi, si))
+            ks = _cc_lit(cx, ("is", fv, True))
+            unguarded = not [l for l in cx.guard_lits(Site(cfn, bi, si, "write")) if not (l[0] == "is" and "slog" in show(l[1]))]
+            neg = all((not r[0]) and r[1][0] == "un" and r[1][1] == "Not" and (r[1][2] == fv or r[1][2] == ("upvar", up) or (r[1][2][0] == "deref" and r[1][2][1] == ("upvar", up))) for r in rets0)
+            if ks and unguarded and neg:
+                form2_kinds = ks
+        if form2_kinds is not None:
+            cx.ok(name + ":flag-per-page", "flag := page.iter().any(is conf change); verdict := !flag (stop on the first page with a hit)", sc)
+            cx.check(set(form2_kinds) == set(CC_KINDS), name + ":kinds", "both EntryConfChange and EntryConfChangeV2 count as a hit (found %s)" % sorted(form2_kinds), sc)
+            n += 2
+            writes_for_form1 = []
+        else:
+            writes_for_form1 = writes
+        for bi, si, up, rv in writes_for_form1:
             c = rv.get("use", {}).get("const", {})
             is_true = c.get("ty") == "bool" and c.get("val", {}).get("int") == 1
             cx.check(is_true, name + ":flag-sticky", "the callback only ever SETS the flag (a later page must not clear an earlier hit)", Site(cfn, bi, si, "write"))
@@ -462,13 +484,14 @@ def unapplied_scan(cx):
             cx.check(ok, name + ":flag-guard", "the flag is set only for a conf-change entry", Site(cfn, bi, si, "write"))
             n += 1
         wblocks = {w[0] for w in writes}
-        ok, ne = g.after_edge_must_pass(lambda lits: any(_cc_lit(cx, l) for l in lits), lambda b: b in wblocks)
-        cx.check(ok and ne >= 1, name + ":flag-converse", "every conf-change entry seen sets the flag", sc)
+        if form2_kinds is None:
+            ok, ne = g.after_edge_must_pass(lambda lits: any(_cc_lit(cx, l) for l in lits), lambda b: b in wblocks)
+            cx.check(ok and ne >= 1, name + ":flag-converse", "every conf-change entry seen sets the flag", sc)
         # the callback's verdict: false (= stop) exactly on a hit, true (= next page) otherwise
         rets = closure_returns(cx.prog, clos[0][1])
         cx.check(bool(rets), name + ":callback-paths", "the callback's return paths can be enumerated", sc)
-        kinds = set()
-        for r in rets or []:
+        kinds = set(form2_kinds or ())
+        for r in (rets or []) if form2_kinds is None else []:
             lits, v = r[0], r[1]
             ks = [k for k in (_cc_lit(cx, l) for l in lits) if k]
             if ks:
@@ -477,7 +500,8 @@ def unapplied_scan(cx):
             else:
                 cx.check(v == ("bool", True), name + ":continue-on-miss", "the callback asks for the next page (returns true) when the page holds no conf change (found %s)" % show(v), sc)
             n += 1
-        cx.check(kinds == set(CC_KINDS), name + ":kinds", "both EntryConfChange and EntryConfChangeV2 count as a hit (found %s)" % sorted(kinds), sc)
+        if form2_kinds is None:
+            cx.check(kinds == set(CC_KINDS), name + ":kinds", "both EntryConfChange and EntryConfChangeV2 count as a hit (found %s)" % sorted(kinds), sc)
         # the function's result is the flag
         fa = cx.prog.A(f)
         flag_local = [v for k, v in caps.items() if k in flags]
